@@ -9,7 +9,8 @@
 //! metadata after `Buffer::from_bytes` for every writer, "picture with SAUCE = picture without", no panic in the
 //! SAUCE code on any input.
 //!
-//! replay inputs (one token each): `m/…` metadata case, `c/…` splice case, `x/<ext>/<hex>` raw file,
+//! replay inputs (one token each): `m/…` metadata case, `c/…` splice case, `f/…` probe case and `l/…` binary-format load
+//! case (c11load.rs), `y/<hex>` probe file, `z/<ext>/<hex>` binary-format file, `x/<ext>/<hex>` raw file,
 //! `s/<len>/<pad>/<hex>` string, `p/<ext>/<seed>` picture case, `big/<extra>` 2-GiB file.
 use crate::util::*;
 use icy_engine::{
@@ -20,8 +21,8 @@ use std::collections::HashMap;
 use std::panic::AssertUnwindSafe;
 use std::path::PathBuf;
 
-const EXTS: [&str; 10] = ["ans", "asc", "avt", "pcb", "bin", "xb", "tnd", "adf", "idf", "icy"];
-const KINDS: [SauceFileType; 9] = [
+pub(crate) const EXTS: [&str; 10] = ["ans", "asc", "avt", "pcb", "bin", "xb", "tnd", "adf", "idf", "icy"];
+pub(crate) const KINDS: [SauceFileType; 9] = [
     SauceFileType::Undefined,
     SauceFileType::Ascii,
     SauceFileType::Ansi,
@@ -32,10 +33,10 @@ const KINDS: [SauceFileType; 9] = [
     SauceFileType::Bin,
     SauceFileType::XBin,
 ];
-const KIND_NAMES: [&str; 9] = ["Undefined", "Ascii", "Ansi", "ANSiMation", "PCBoard", "Avatar", "TundraDraw", "Bin", "XBin"];
+pub(crate) const KIND_NAMES: [&str; 9] = ["Undefined", "Ascii", "Ansi", "ANSiMation", "PCBoard", "Avatar", "TundraDraw", "Bin", "XBin"];
 
 /// SauceFileType written by each format's writer (read off the source; the translator extracts the same table)
-fn ext_kind(ext: &str) -> usize {
+pub(crate) fn ext_kind(ext: &str) -> usize {
     match ext {
         "ans" | "adf" | "icy" => 2,
         "asc" => 1,
@@ -48,10 +49,10 @@ fn ext_kind(ext: &str) -> usize {
     }
 }
 
-fn cp_str(bs: &[u8]) -> String {
+pub(crate) fn cp_str(bs: &[u8]) -> String {
     bs.iter().map(|b| CP437_TO_UNICODE[*b as usize]).collect()
 }
-fn cp_bytes(s: &str) -> Vec<u8> {
+pub(crate) fn cp_bytes(s: &str) -> Vec<u8> {
     s.chars().map(|c| CP437_TO_UNICODE.iter().position(|t| *t == c).map(|p| p as u8).unwrap_or(b'?')).collect()
 }
 fn strip(s: &[u8]) -> &[u8] {
@@ -67,7 +68,7 @@ fn upto_nul(s: &[u8]) -> &[u8] {
         None => s,
     }
 }
-fn b01(b: bool) -> &'static str {
+pub(crate) fn b01(b: bool) -> &'static str {
     if b {
         "1"
     } else {
@@ -76,25 +77,25 @@ fn b01(b: bool) -> &'static str {
 }
 
 #[derive(Clone, Debug)]
-struct Case {
-    mode: char, // 'm' metadata round trip, 'c' splice (arbitrary content + engine-written tail with loader defaults)
-    target: String, // "k0".."k8" (write_sauce_info directly) or an extension (to_bytes / from_bytes)
-    w: i32,
-    h: i32,
-    ice: bool,
-    ar: bool,
-    ls: bool,
-    has: bool,
-    font: Vec<u8>,
-    title: Vec<u8>,
-    author: Vec<u8>,
-    group: Vec<u8>,
-    vec: Vec<u8>, // existing contents of the vector (mode m, kind target), cell seed (ext target), content (mode c)
-    comments: Vec<Vec<u8>>,
+pub(crate) struct Case {
+    pub(crate) mode: char, // 'm' metadata round trip, 'c' splice (arbitrary content + engine-written tail with loader defaults)
+    pub(crate) target: String, // "k0".."k8" (write_sauce_info directly) or an extension (to_bytes / from_bytes)
+    pub(crate) w: i32,
+    pub(crate) h: i32,
+    pub(crate) ice: bool,
+    pub(crate) ar: bool,
+    pub(crate) ls: bool,
+    pub(crate) has: bool,
+    pub(crate) font: Vec<u8>,
+    pub(crate) title: Vec<u8>,
+    pub(crate) author: Vec<u8>,
+    pub(crate) group: Vec<u8>,
+    pub(crate) vec: Vec<u8>, // existing contents of the vector (mode m, kind target), cell seed (ext target), content (mode c)
+    pub(crate) comments: Vec<Vec<u8>>,
 }
 
 impl Case {
-    fn encode(&self) -> String {
+    pub(crate) fn encode(&self) -> String {
         format!(
             "{}/{}/{}/{}/{}{}{}{}/{}/{}/{}/{}/{}/{}:{}",
             self.mode,
@@ -114,7 +115,7 @@ impl Case {
             self.comments.iter().map(|c| hex(c)).collect::<Vec<_>>().join(",")
         )
     }
-    fn decode(s: &str) -> Option<Case> {
+    pub(crate) fn decode(s: &str) -> Option<Case> {
         let p: Vec<&str> = s.split('/').collect();
         if p.len() != 11 {
             return None;
@@ -146,7 +147,7 @@ impl Case {
             comments,
         })
     }
-    fn kind(&self) -> usize {
+    pub(crate) fn kind(&self) -> usize {
         if let Some(k) = self.target.strip_prefix('k') {
             if let Ok(k) = k.parse::<usize>() {
                 return k.min(8);
@@ -154,11 +155,11 @@ impl Case {
         }
         ext_kind(&self.target)
     }
-    fn is_ext(&self) -> bool {
+    pub(crate) fn is_ext(&self) -> bool {
         EXTS.contains(&self.target.as_str())
     }
     /// the buffer the case describes (cells are filled from `vec` for extension targets)
-    fn buffer(&self, fill: bool) -> Buffer {
+    pub(crate) fn buffer(&self, fill: bool) -> Buffer {
         let mut buf = Buffer::new((self.w, self.h));
         if self.ice {
             buf.ice_mode = IceMode::Ice;
@@ -183,7 +184,7 @@ impl Case {
         buf
     }
     /// request line for the model's writer
-    fn write_op(&self, date: &[u8], vec_len: usize) -> String {
+    pub(crate) fn write_op(&self, date: &[u8], vec_len: usize) -> String {
         let t = |s: &[u8], n: usize| hex(&s[..s.len().min(n)]);
         let e: &[u8] = &[];
         let (ti, au, gr) = if self.has { (&self.title[..], &self.author[..], &self.group[..]) } else { (e, e, e) };
@@ -214,7 +215,7 @@ impl Case {
     }
 }
 
-fn fill_cells(buf: &mut Buffer, seed: &[u8]) {
+pub(crate) fn fill_cells(buf: &mut Buffer, seed: &[u8]) {
     let mut r = Rng::new(fnv(seed.iter().map(|b| *b as u64)));
     let (w, h) = (buf.get_width(), buf.get_height());
     for y in 0..h {
@@ -230,7 +231,7 @@ fn fill_cells(buf: &mut Buffer, seed: &[u8]) {
     }
 }
 
-fn err_name(msg: &str) -> &'static str {
+pub(crate) fn err_name(msg: &str) -> &'static str {
     if msg.starts_with("unsupported version") {
         "version"
     } else if msg.starts_with("invalid sauce comment block") {
@@ -287,14 +288,14 @@ fn show_sauce(sd: &SauceData, total: usize) -> String {
     )
 }
 
-struct Ctx {
-    dates: HashMap<Vec<u8>, bool>,
+pub(crate) struct Ctx {
+    pub(crate) dates: HashMap<Vec<u8>, bool>,
 }
 
 impl Ctx {
     /// verdict of the date parser (chrono, outside the model) on 8 bytes, obtained from the implementation on a
     /// clean record that differs from an accepted one only in the date field
-    fn date_ok(&mut self, d: &[u8]) -> bool {
+    pub(crate) fn date_ok(&mut self, d: &[u8]) -> bool {
         if let Some(v) = self.dates.get(d) {
             return *v;
         }
@@ -313,12 +314,12 @@ impl Ctx {
     }
 }
 
-fn is_sauce_site(site: &str) -> bool {
+pub(crate) fn is_sauce_site(site: &str) -> bool {
     site.starts_with("sauce_mod/") || site == "buffers.rs::from_bytes" || site == "buffers.rs::set_sauce"
 }
 
 /// `SauceData::extract` on arbitrary bytes: correspondence line + "no panic" oracle. Returns the record, if any.
-fn extract_case(run: &mut Run, ctx: &mut Ctx, bytes: &[u8], input: &str) -> Option<SauceData> {
+pub(crate) fn extract_case(run: &mut Run, ctx: &mut Ctx, bytes: &[u8], input: &str) -> Option<SauceData> {
     let dok = if bytes.len() >= 128 { ctx.date_ok(&bytes[bytes.len() - 128 + 82..bytes.len() - 128 + 90]) } else { true };
     let r = catch(|| SauceData::extract(bytes));
     let op = format!("sauce extract {} {}", b01(dok), hex(bytes));
@@ -353,7 +354,7 @@ fn extract_case(run: &mut Run, ctx: &mut Ctx, bytes: &[u8], input: &str) -> Opti
 }
 
 /// `Buffer::from_bytes` must not panic inside the SAUCE code (panics of the format loaders belong to C01/C02)
-fn from_bytes_case(run: &mut Run, ext: &str, bytes: &[u8], input: &str) -> Option<Buffer> {
+pub(crate) fn from_bytes_case(run: &mut Run, ext: &str, bytes: &[u8], input: &str) -> Option<Buffer> {
     let path = PathBuf::from(format!("c11.{}", ext));
     match catch(|| Buffer::from_bytes(&path, false, bytes)) {
         Err(loc) => {
@@ -406,7 +407,7 @@ fn expect(c: &Case) -> Expect {
 }
 
 /// oracle: the strings of `sd` are the case's strings as far as SAUCE can carry them
-fn check_strings(run: &mut Run, c: &Case, sd: &SauceData, input: &str, whence: &str) {
+pub(crate) fn check_strings(run: &mut Run, c: &Case, sd: &SauceData, input: &str, whence: &str) {
     let e: &[u8] = &[];
     let ec: &[Vec<u8>] = &[];
     let (t, a, g, cs) = if c.has { (&c.title[..], &c.author[..], &c.group[..], &c.comments[..]) } else { (e, e, e, ec) };
@@ -459,7 +460,7 @@ fn check_record(run: &mut Run, c: &Case, sd: &SauceData, input: &str, whence: &s
     }
 }
 
-fn date_of(tail: &[u8]) -> Vec<u8> {
+pub(crate) fn date_of(tail: &[u8]) -> Vec<u8> {
     if tail.len() >= 128 {
         tail[tail.len() - 128 + 82..tail.len() - 128 + 90].to_vec()
     } else {
@@ -467,7 +468,7 @@ fn date_of(tail: &[u8]) -> Vec<u8> {
     }
 }
 
-fn picture(b: &Buffer) -> Vec<u64> {
+pub(crate) fn picture(b: &Buffer) -> Vec<u64> {
     let mut v = vec![b.get_width() as u64, b.get_height() as u64];
     for y in 0..b.get_height() {
         for x in 0..b.get_width() {
@@ -478,7 +479,7 @@ fn picture(b: &Buffer) -> Vec<u64> {
     }
     v
 }
-fn picture_diff(a: &[u64], b: &[u64]) -> Option<String> {
+pub(crate) fn picture_diff(a: &[u64], b: &[u64]) -> Option<String> {
     if a[0] != b[0] || a[1] != b[1] {
         return Some(format!("size {}x{} vs {}x{}", a[0], a[1], b[0], b[1]));
     }
@@ -687,7 +688,9 @@ fn splice_case(run: &mut Run, ctx: &mut Ctx, c: &Case) {
     };
     if let Some(loaded) = from_bytes_case(run, ext, &vec, &input) {
         if let Some(d) = picture_diff(&picture(&alone), &picture(&loaded)) {
-            run.oracle_fail("picture", &input, &format!(".{}: picture of content+EOF+SAUCE differs from the picture of the content alone: {}", ext, d));
+            // one recorded site has a key of its own: a .tnd file that places no cell at all keeps the record's height
+            let key = if ext == "tnd" && alone.get_line_count() == 0 { "picture-tnd-no-cell" } else { "picture" };
+            run.oracle_fail(key, &input, &format!(".{}: picture of content+EOF+SAUCE differs from the picture of the content alone: {}", ext, d));
         }
         if loaded.get_sauce().is_none() {
             run.oracle_fail(&format!("load-metadata-{}", ext), &input, &format!(".{}: the loaded buffer has no SAUCE metadata", ext));
@@ -849,7 +852,7 @@ fn string_case(run: &mut Run, len: usize, pad: u8, d: &[u8]) {
 
 // ------------------------------------------------------------------------------------------------ generators
 
-fn gen_bytes(r: &mut Rng, n: usize) -> Vec<u8> {
+pub(crate) fn gen_bytes(r: &mut Rng, n: usize) -> Vec<u8> {
     let style = r.below(6);
     (0..n)
         .map(|_| match style {
@@ -869,7 +872,7 @@ fn gen_bytes(r: &mut Rng, n: usize) -> Vec<u8> {
         .collect()
 }
 /// title/author/group text: every length 0..=max, with trailing blanks/NULs, all-blank, sometimes over-long
-fn gen_field(r: &mut Rng, max: usize) -> Vec<u8> {
+pub(crate) fn gen_field(r: &mut Rng, max: usize) -> Vec<u8> {
     let n = match r.below(10) {
         0 => 0,
         1 => max,
@@ -894,7 +897,7 @@ fn gen_field(r: &mut Rng, max: usize) -> Vec<u8> {
     }
     s
 }
-fn gen_comment(r: &mut Rng) -> Vec<u8> {
+pub(crate) fn gen_comment(r: &mut Rng) -> Vec<u8> {
     let n = match r.below(8) {
         0 => 0,
         1 => 64,
@@ -919,7 +922,7 @@ fn gen_comment(r: &mut Rng) -> Vec<u8> {
     }
     s
 }
-fn gen_font(r: &mut Rng) -> Vec<u8> {
+pub(crate) fn gen_font(r: &mut Rng) -> Vec<u8> {
     match r.below(6) {
         0 => cp_bytes(&BitFont::default().name),
         1 | 2 => cp_bytes(*r.pick(SAUCE_FONT_NAMES)),
@@ -934,7 +937,7 @@ fn gen_font(r: &mut Rng) -> Vec<u8> {
         }
     }
 }
-fn gen_comments(r: &mut Rng, big: bool) -> Vec<Vec<u8>> {
+pub(crate) fn gen_comments(r: &mut Rng, big: bool) -> Vec<Vec<u8>> {
     let n = match r.below(12) {
         0 | 1 => 0,
         2 | 3 => 1,
@@ -965,7 +968,7 @@ fn gen_comments(r: &mut Rng, big: bool) -> Vec<Vec<u8>> {
     (0..n).map(|_| gen_comment(r)).collect()
 }
 /// content whose own last bytes look like SAUCE / COMNT markers
-fn gen_marker_content(r: &mut Rng, base: &[u8]) -> Vec<u8> {
+pub(crate) fn gen_marker_content(r: &mut Rng, base: &[u8]) -> Vec<u8> {
     let mut c = base.to_vec();
     let junk = |r: &mut Rng, n: usize| -> Vec<u8> { (0..n).map(|_| r.range(32, 126) as u8).collect() };
     match r.below(12) {
@@ -1008,7 +1011,7 @@ fn gen_marker_content(r: &mut Rng, base: &[u8]) -> Vec<u8> {
     c
 }
 
-fn gen_case(r: &mut Rng, target: &str, big: bool) -> Case {
+pub(crate) fn gen_case(r: &mut Rng, target: &str, big: bool) -> Case {
     let is_ext = EXTS.contains(&target);
     let (w, h) = if is_ext {
         let w = match r.below(10) {
@@ -1074,8 +1077,10 @@ fn gen_case(r: &mut Rng, target: &str, big: bool) -> Case {
     }
 }
 
-fn run_case(run: &mut Run, ctx: &mut Ctx, c: &Case) {
+pub(crate) fn run_case(run: &mut Run, ctx: &mut Ctx, c: &Case) {
     match (c.mode, c.is_ext()) {
+        ('f', _) => crate::c11load::probe_case(run, ctx, c),
+        ('l', true) => crate::c11load::load_case(run, ctx, c, None),
         ('c', true) => splice_case(run, ctx, c),
         ('m', true) => meta_ext_case(run, ctx, c),
         _ => meta_kind_case(run, ctx, c),
@@ -1129,6 +1134,12 @@ fn run_input(run: &mut Run, ctx: &mut Ctx, line: &str) {
     if let Some(rest) = line.strip_prefix("x/") {
         if let Some((ext, h)) = rest.split_once('/') {
             file_case(run, ctx, ext, &unhex(h));
+        }
+    } else if let Some(h) = line.strip_prefix("y/") {
+        crate::c11load::probe_file(run, ctx, &unhex(h));
+    } else if let Some(rest) = line.strip_prefix("z/") {
+        if let Some((ext, h)) = rest.split_once('/') {
+            crate::c11load::load_raw(run, ctx, ext, &unhex(h));
         }
     } else if let Some(rest) = line.strip_prefix("s/") {
         let p: Vec<&str> = rest.split('/').collect();
@@ -1522,6 +1533,10 @@ pub fn run(run: &mut Run, seed: u64, thorough: bool, replay: Option<&str>, corpu
 
     // 5b. SauceString on Rust strings: the CP437 <-> Unicode layer (own generator state)
     crate::sauceuni::cases(run, &mut Rng::new(seed ^ 0x5A11), thorough);
+
+    // 5c. the split as the format loader sees it: probe through the .asc loader, composed load of the binary formats,
+    // boundary comment counts for every writer (own generator state)
+    crate::c11load::cases(run, &mut ctx, &mut Rng::new(seed ^ 0xC11F), thorough);
 
     // 6. a file of 2 GiB and a bit (the length does not fit i32)
     for extra in [0usize, 100, 16325] {
